@@ -44,7 +44,8 @@ CLAIMS = {
             'order and table content are independent of --threads for N<=4 (thorough 6) transcripts; records gathered '
             'through byte-offset pointers of several files in any order; on two concrete peptide graphs the traversal '
             'result is the same for every iteration order of the node edge sets (order chosen by symbolic flags - the '
-            'hash-seed clause at the traversal stage).',
+            'hash-seed clause at the traversal stage); records that differ in a field defining the event are never merged '
+            'by the per-transcript set() that unites the GVF files.',
             'Claimed: thread-count/batching independence, dispatch order, file grouping/order, raw vs index pool '
             'parameters, set-order independence of the traversal on two fixed graphs. Process pools are replaced '
             'by a synchronous stub.'),
@@ -68,13 +69,17 @@ CLAIMS = {
             'inductive step from any valid state; GTF byte-range pointers; GTF line round trip; whole-annotation '
             'GtfIO.write -> dump_gtf round trip (1 gene with CDS/UTR/Sec/tags, and 2 genes / 3 transcripts) for symbolic '
             'coordinates < 59000.',
-            'Bounds per condition in the evidence file. On-disk model loading (TranscriptPointer.load over real bytes) '
-            'is not encoded (only the pointer partition and the per-line parse).'),
+            'Bounds per condition in the evidence file. The on-disk annotation is decided through the real '
+            'generate_index / pointer load over a binary-file stand-in (line byte lengths concrete, coordinates symbolic): '
+            'models equal the fully parsed ones for every access order incl. a repeated access, and two annotations alive '
+            'in one process do not see each other; real byte decoding is not encoded.'),
     'C12': (True, CH,
             'One inductive step of the index metadata state machine from states built by real registrations; '
             'save/override/load history over a dict-backed file system; generateIndex/updateIndex digest the pool '
-            'with exactly the parameters they register, for all option values.',
-            'Pickle/JSON serialisation itself and version strings are outside the claim.'),
+            'with exactly the parameters they register, for all option values; three-step histories (two pools, then a forced '
+            'refresh of the older or the newer one, or a third pool) load back the right pool for every parameter set; '
+            'version gate.',
+            'Pickle/JSON serialisation itself is outside the claim.'),
     'C13': (True, CH,
             'GVF text round trip is a fixpoint and preserves positions, alleles, ids and attributes for every '
             'record kind with the attribute sets the parsers emit (read from source by an AST scan); circRNA '
@@ -86,7 +91,8 @@ CLAIMS = {
             'cds_start_NF and every SNV / deletion / insertion (both VEP conventions) / >=3-base substitution, REF '
             'equals the gene sequence and applying the record equals applying the genomic event and re-extracting the '
             'gene (elementwise); boundary events are rejected, never misplaced. REDItools: placement per transcript '
-            '(one and two genes) and exact coverage/frequency thresholds.',
+            '(one and two genes) and exact coverage/frequency thresholds, per substitution for sites listing several '
+            'substitutions in any order.',
             'Frequency test compared against the exact rational rule for read counts 0..7; parse of the text tables is '
             'outside the claim.'),
     'C16': (True, CH,
@@ -111,28 +117,32 @@ CLAIMS = {
             'sequence unchanged; idempotent; miscleavage range exact.',
             'Expression values are integers (real-valued levels outside the claim); labels are concrete strings.'),
     'C01': (True, CH,
-            'Stage 1 of 5 only: for every reading frame and every compatible subset of <=2 supplied variants (3 for SNVs) '
+            'Stage 1 of 5: for every reading frame and every compatible subset of <=2 supplied variants (3 for SNVs) '
             'of every kind/position/length within the bound, the real variant graph (init_three_frames + '
             'create_variant_graph) contains a path spelling exactly that haplotype. A stage-1 witness is lifted to a '
             'real callVariant run against a definitional digest before it is reported. CircRNA clause: on ONE concrete '
             'two-exon circRNA the real call_peptide_circ_rna traversal reports exactly the non-canonical digestion products '
             'of the circular reading for miscleavage 0 (thorough 1-2) and ALL integer min/max lengths.',
-            'NARROW CLAIM: codon alignment, translation, cleavage graph and traversal are outside reach (content-hashed '
-            'graph nodes); a defect confined to them is not detected. Known finding: adjacent variants of different '
-            'merge classes (known_findings.txt).'),
+            'NARROW CLAIM: codon alignment, translation and cleavage-graph construction cannot carry symbolic content '
+            '(content-hashed graph nodes); they are exercised only concretely on the fixed examples, so a defect confined to '
+            'them on other inputs is not detected. Known finding: adjacent variants of different merge classes '
+            '(known_findings.txt).'),
     'C02': (True, CH,
-            'Stage 1 of 5 only: every root-to-leaf path of the real variant graph spells the haplotype of exactly the '
+            'Stage 1 of 5: every root-to-leaf path of the real variant graph spells the haplotype of exactly the '
             'variants annotated on it, and never combines overlapping variants (same bounds as C01). '
             'Plus: the timeout-retry reducer only lowers the two complexity limits; on ONE concrete transcript whose '
-            'variant bubble is pop-collapsed (--min-nodes-to-collapse 3) the real traversal reports exactly the '
-            'definitional digest for miscleavage 0..1 (thorough 2) and ALL integer min/max lengths.',
+            'variant bubble is pop-collapsed (--min-nodes-to-collapse 3), on one with three frameshifting deletions whose '
+            'pop-collapsed nodes are split again, and on a selenoprotein with two SNVs under --selenocysteine-termination, '
+            'the real traversal reports exactly the definitional digest for miscleavage 0..1 (thorough 2) and ALL integer '
+            'min/max lengths.',
             'NARROW CLAIM: codon alignment, translation and cleavage-graph construction are exercised only concretely '
             '(on the fixed example) - a defect confined to them on other inputs is not detected.'),
     'C05': (True, 'CrossHair + z3 for implementation == reference model; direct z3 (QF_LIA) for monotonicity of the model',
             'Kernel level: the real miscleavage enumeration equals a reference model for unbounded symbolic limits '
             '(chains of 3, thorough 4 nodes); the model is monotone in miscleavage/min/max length for ALL integers (z3); '
             'size predicates monotone; enabling W>F only adds sequences carrying W2F identifiers; pop-collapsed nodes use '
-            'no miscleavage. Traversal stage on CONCRETE graphs with SYMBOLIC limits: for a fixed small transcript the real call_variant_peptides equals the definitional digest for every miscleavage 0..1 (thorough 2-3) and ALL integer min/max lengths (so the output is a pure filter of one fixed set: monotone in each limit).',
+            'no miscleavage; adding a fusion record (per-transcript wrapper) or a second small variant (fixed transcript, all '
+            'limits) only adds peptides, each attributable to the addition. Traversal stage on CONCRETE graphs with SYMBOLIC limits: for a fixed small transcript the real call_variant_peptides equals the definitional digest for every miscleavage 0..1 (thorough 2-3) and ALL integer min/max lengths (so the output is a pure filter of one fixed set: monotone in each limit).',
             'Kernel claim + one fixed transcript: monotonicity in added variants / GVF files for arbitrary inputs needs '
             'the graph pipeline and is outside the claim; nodes are duck-typed stand-ins in the kernel conditions.'),
     'C08': (True, CH,
@@ -160,12 +170,16 @@ CLAIMS = {
     'C18': (True, CH,
             'Source-set order equals "fewer sources first, then lexicographic by priority" for unbounded symbolic '
             'priorities; split decision for one peptide over every source assignment / priority order / max_groups / '
-            'additional split; merge union; encode/decoy header inverse and dictionary restore; label syntax round trip.',
-            'Kernel level: summarizeFasta totals vs split sizes (whole-file statement) is outside the claim.'),
+            'additional split, incl. top-priority sets of 1..3 sources matched by several --additional-split sets at once; '
+            'merge union (pool and mergeFasta command loop over 1..4 files); encode/decoy header inverse and dictionary '
+            'restore; label syntax round trip; summarizeFasta totals add up and equal the splitFasta database sizes for 3 '
+            'peptides over every source assignment and priority order.',
+            'Kernel level with small pools (<= 3 peptides, 3 sources); FASTA text I/O is stubbed.'),
     'C20': (True, CH,
             'Reversal and shuffle are rearrangements keeping every fixed position for all sequences of length <=5 and all '
             'fixed sets (shuffle: arbitrary symbolic permutation); fixed-index rule for termini/listed residues; one '
-            'decoy per target, header, output order, order independence with a stateful RNG stand-in.',
+            'decoy per target, header, output order, order independence with a stateful RNG stand-in; reproducibility for '
+            'ANY integer seed (0 and negatives included) from any prior generator state.',
             'Known finding: trypsin cleavage residue not kept in place (known_findings.txt).'),
 }
 
